@@ -428,8 +428,25 @@ class Engine:
         detail = ''
         if st == 'unknown':
             detail = self.solver.reason_unknown()
+            # portfolio: the incremental solver gave up; the same query in fresh (non-incremental) solvers with other
+            # random seeds.  Only a few times per function: a genuinely failing function fails many obligations.
+            self.n_portfolio = getattr(self, 'n_portfolio', 0) + 1
+            if self.n_portfolio <= 4:
+                for seed in (1, 2):
+                    s_ = z3.Solver()
+                    s_.set('timeout', self.timeout_ms)
+                    s_.set('random_seed', seed)
+                    s_.add(self.solver.full.assertions())
+                    s_.add(z3.Not(cond))
+                    r3 = s_.check()
+                    if r3 == z3.unsat:
+                        st, detail = 'unsat', 'fresh solver, seed %d' % seed
+                        break
+                    if r3 == z3.sat:
+                        st, m, detail = 'sat', s_.model(), 'fresh solver, seed %d' % seed
+                        break
             # small-scope retry: a model of pc /\ not cond with small containers is still a counterexample
-            for bound in (1, 2, 3):
+            for bound in ((1, 2, 3) if st == 'unknown' else ()):
                 r2, m2 = self.check(z3.Not(cond), *[z3.And(t >= -bound - 1, t <= bound) for t in self.size_terms],
                                     timeout=self.timeout_ms)
                 if r2 == z3.sat:
